@@ -44,7 +44,8 @@ EXPLANATION = (
     "sha256 by default, no caller overrides the algorithm, verify compares with ==. (T5) SQL "
     "statements are keyed by (hostname, port). (T6) the redirect follower only reaches the "
     "network through _get_single(hop URL), whose host/port come from that URL. (T7) sibling "
-    "implementations agree."
+    "implementations agree. "
+    "(T9) The TOFU key is canonical: the C19 component samples (incl. a mixed-case host and IPv6 literals) evaluate to the lower-cased, unbracketed hostname and the effective port."
 )
 
 SESSION = "client.session:GeminiClient"
